@@ -4,3 +4,4 @@ import FindVerif.Model.Ast
 import FindVerif.Model.Lex.Token
 import FindVerif.Model.Precedence
 import FindVerif.Model.Parse
+import FindVerif.Driver.Conv
